@@ -30,13 +30,28 @@ def nnz(M):
     return int(len(M.data))
 
 
+# homogeneity degree of what is RECORDED for each operator (entries x size^degree); the specification checks this table (HomDeg)
+def hom_degree(nm, opt):
+    if nm == "adjacency_length":
+        return 2                                   # recorded squared
+    if nm in ("mass_vertices", "mass_edges", "mass_faces"):
+        return -2 if "inverse" in opt else 2       # square roots are recorded squared
+    if nm in ("mass_volume_vertices", "mass_volume_cells"):
+        return -3 if "inverse" in opt else 3
+    if nm == "gradient_flat":
+        return -1
+    return 0
+
+
 def exec_case(case):
     import mouette as M
     import c09
     O = M.operators
     g = dict(case["given"])
     kind = "volume" if g.get("C0") else ("polyline" if g.get("E0") else "surface")
-    m = c09.build({"kind": kind, "P": g["P"], "F": g.get("F0", []), "C": g.get("C0", []), "E0": g.get("E0", [])})
+    k10 = g.setdefault("scale10", 0)             # the real mesh is the lattice mesh shrunk by 10^k: every operator is homogeneous in the size
+    sc = 10.0 ** (-k10)
+    m = c09.build({"kind": kind, "P": [[c * sc for c in p] for p in g["P"]] if k10 else g["P"], "F": g.get("F0", []), "C": g.get("C0", []), "E0": g.get("E0", [])})
     hist = g.setdefault("hist", "")
     if hist and kind == "surface":
         # history: the persistent per-element attributes the operators may reuse exist already ...
@@ -58,8 +73,10 @@ def exec_case(case):
     events = []
     for ev in case["events"]:
         e = {"op": "operator", "name": ev["name"], "opt": ev.get("opt", ""), "exc": "", "M": [], "nnz": 0, "W": [], "rows": [], "asym": [],
-             "g2": [], "a": [0, 0, 0], "ysign": 1}
+             "g2": [], "g3": [], "a": [0, 0, 0], "ysign": 1}
         nm, opt = e["name"], e["opt"]
+        e["deg"] = hom_degree(nm, opt)
+        unscale = 10.0 ** (k10 * e["deg"])          # brings the entries of the shrunk mesh back to those of the lattice mesh
         try:
             if nm == "laplacian":
                 e["M"] = rows(dense(O.laplacian(m, cotan=(opt == "cotan"))))
@@ -76,7 +93,7 @@ def exec_case(case):
                 e["nnz"], e["M"] = nnz(A), rows(dense(A))
             elif nm == "adjacency_length":
                 A = O.adjacency_matrix(m, "length")
-                e["nnz"], e["M"] = nnz(A), [[rat(x * x) for x in r] for r in dense(A)]
+                e["nnz"], e["M"] = nnz(A), [[rat(x * x * unscale) for x in r] for r in dense(A)]
             elif nm == "vertex_to_edge":
                 A = O.vertex_to_edge_operator(m, oriented=(opt == "oriented"))
                 e["nnz"], e["M"] = nnz(A), rows(dense(A))
@@ -92,11 +109,11 @@ def exec_case(case):
                 fn = {"mass_vertices": O.area_weight_matrix, "mass_edges": O.area_weight_matrix_edges, "mass_faces": O.area_weight_matrix_faces,
                       "mass_volume_vertices": O.volume_weight_matrix, "mass_volume_cells": O.volume_weight_matrix_cells}[nm]
                 A = dense(fn(m, **kw))
-                e["M"] = rows(A * A if "sqrt" in opt else A)         # a square root is projected squared (exact surrogate)
+                e["M"] = rows((A * A if "sqrt" in opt else A) * unscale)         # a square root is projected squared (exact surrogate); back to lattice size
             elif nm == "gradient_flat":
                 conn = M.processing.FlatConnectionFaces(m)
                 e["ysign"] = 1 if float(conn._baseY[1]) > 0 else -1
-                G = dense(O.gradient(m, conn, as_complex=True))
+                G = dense(O.gradient(m, conn, as_complex=True)) * unscale
                 e["M"] = [[[rat(z.real), rat(z.imag)] for z in r] for r in G]
             elif nm == "gradient_identity":
                 conn = M.processing.SurfaceConnectionFaces(m)
@@ -118,6 +135,13 @@ def exec_case(case):
                     gf = np.ravel(gf)
                     e["g2"] = [rat(gf[2 * i] ** 2 + gf[2 * i + 1] ** 2) for i in range(len(m.faces))]
                 e["a"] = list(ev["a"])
+                # the gradient as a vector of space, rebuilt from its coordinates in the library's own face bases
+                g3 = []
+                for i in range(len(m.faces)):
+                    X, Y = (np.asarray(b, dtype=float) for b in conn.base(i))
+                    gx, gy = (float(np.real(gf[i])), float(np.imag(gf[i]))) if as_c else (float(gf[2 * i]), float(gf[2 * i + 1]))
+                    g3.append([rat(c) for c in gx * X + gy * Y])
+                e["g3"] = g3
             elif nm == "laplacian_triangles":
                 e["M"] = rows(dense(O.laplacian_triangles(m, cotan=(opt == "cotan"))))
             elif nm in ("volume_laplacian", "laplacian_tetrahedra", "laplacian_edges"):
@@ -186,6 +210,11 @@ def run(ctx):
             P2 = [None] * len(P)
             for old, new in enumerate(perm):
                 P2[new] = P[old]
+            if rep == 0 and (F or C):
+                # the same shape 10^5 times smaller (faces of area ~1e-10, cells of volume ~1e-15)
+                cases.append({"id": "%s-%d-tiny" % (name, len(cases)),
+                              "given": {"P": P2, "F0": [[perm[v] for v in f] for f in F], "C0": [[perm[v] for v in c] for c in C],
+                                        "E0": [], "family": name, "hist": "", "scale10": 5}, "events": evs})
             for hist in (["", "warm", "moved"] if (F and rep == 0) else [""]):
                 cases.append({"id": "%s-%d-%d%s" % (name, len(cases), rep, hist),
                               "given": {"P": P2, "F0": [[perm[v] for v in f] for f in F], "C0": [[perm[v] for v in c] for c in C],
